@@ -42,6 +42,7 @@ VIEW_VALUE = re.compile(mir.VIEW.pattern[:-2] + r"|value|next|into_iter)$")
 EXPLANATION += ' (R9) what Replica::insert / delete_prefix offer to the store does not depend on what the store holds at that moment (= C03.R9 with cells on the stored state).'
 EXPLANATION += " (R10, round 9) RecordsBounds::author_key evaluated on concrete ids - incl. ids ending in 0xFF / all-0xFF - and prefixes - incl. empty, ending in 0xFF -, the range decided on sample rows of this author, greater and smaller authors and the next document: exactly (this document, this author, keys starting with the prefix). R5's `removed` clause is decided by R1's evaluated rows."
 EXPLANATION += " (R12, round 10) = the entry_put cells of C18.R2: every admitted entry gets its record and its index row, whether or not it is newer than the author's head."
+EXPLANATION += " (R13, round 12) = C12.R3's single-entry ingress cells: an entry offered to a replica is validated for, pruned in and stored in that very replica; a rejected one touches nothing."
 
 
 def _label_put_operand(body, op):
@@ -980,6 +981,15 @@ def r12(ctx):
     from . import C18
     ctx.share("C02.R12", C18.r2, "C18.R2", keep=lambda k: "entry_put[" in k, floor=3)
 
+def r13(ctx):
+    """"the entries a replica holds depend only on the set of valid entries ever offered to it": an entry offered to one replica is
+    validated against, pruned in and stored in *that* replica - the single-entry ingress evaluated (C12.R3's cells: validate_entry
+    for this replica's id, the store of this replica offered the entry once, nothing on a rejected one). An entry of a neighbour
+    document admitted by mistake prunes and lands in the neighbour (C02-13)."""
+    from . import syncstep
+    syncstep.check_insert_paths(ctx, "C02.R13")
+    ctx.floor("C02.R13", 12)
+
 def run(ctx):
     ctx.run_rule("C02.R1", r1)
     ctx.run_rule("C02.R2", r2)
@@ -992,3 +1002,4 @@ def run(ctx):
     ctx.run_rule("C02.R8", r8)
     ctx.run_rule("C02.R10", r10)
     ctx.run_rule("C02.R12", r12)
+    ctx.run_rule("C02.R13", r13)
